@@ -1045,9 +1045,12 @@ impl<K: AsRef<Key>> ServerSequence<K> {
                 &variables,
             )
         };
-        self.context.apply_signature(mac.as_ref());
-        let mac = self.key().signature_slice(&mac);
-        self.key().complete_message(message, &variables, mac)
+        // The next message digests this MAC as it is transmitted, i.e.,
+        // after truncation (RFC 8945, section 4.3.1 and 5.3.1). The client
+        // side applies the MAC it finds in the record, too.
+        let mac = self.context.key().signature_slice(&mac).to_vec();
+        self.context.apply_signature(&mac);
+        self.key().complete_message(message, &variables, &mac)
     }
 
     /// Returns a reference to the transaction’s key.
